@@ -121,6 +121,22 @@ def gen_case(rng, tier):
     c = {"kind": kind, "vartype": vartype, "terms": terms}
     if kind == 'mq':
         c["strength"] = rng.choice(STRENGTHS)
+    if kind in ('mq', 'cqm') and rng.random() < 0.55:
+        # a model supplied through bqm= / cqm=: biases on the polynomial's variables (couplings on pairs that
+        # the reduction may turn into product variables, and on others), on extra variables, an offset
+        labs = [x for t, _b in terms for x in t]
+        uniq = []
+        for x in labs:
+            if x not in uniq:
+                uniq.append(x)
+        uniq += rng.sample(['e1', 'e2', 9], rng.randint(0, 2))
+        lin = [[x, str(rng.dyadic(8, 1))] for x in uniq if rng.random() < 0.6]
+        quad = [[uniq[i], uniq[j], str(rng.dyadic(8, 1) or Fraction(1))] for i in range(len(uniq)) for j in range(i)
+                if rng.random() < 0.5]
+        other = 'SPIN' if vartype == 'BINARY' else 'BINARY'
+        bvt = vartype if kind == 'cqm' or rng.random() < 0.5 else other
+        c["base"] = {"vartype": bvt, "lin": lin, "quad": quad, "off": str(rng.dyadic(8, 1)),
+                     "pass_vartype": True if bvt != vartype else rng.choice([True, False])}
     if kind == 'reduce':
         c["aseed"] = rng.randrange(1 << 30)
     return c
@@ -145,6 +161,12 @@ class CastChild(dimod.Sampler):
             rec = rec[:self.head]
         return dimod.SampleSet.from_samples((rec.sample, list(ss.variables)), energy=rec.energy.astype(self.dtype),
                                             vartype=ss.vartype, num_occurrences=rec.num_occurrences)
+
+
+def build_base(bd):
+    lin = {dec_label(x): float(F(b)) for x, b in bd["lin"]}
+    quad = {(dec_label(u), dec_label(v)): float(F(b)) for u, v, b in bd["quad"]}
+    return dimod.BinaryQuadraticModel(lin, quad, float(F(bd["off"])), gen.VT[bd["vartype"]])
 
 
 def raw_dict(c):
@@ -205,7 +227,23 @@ def run_case(c):
         poly = dimod.BinaryPolynomial(raw, vt)
         items = [(list(k), b) for k, b in poly.items()]
         use_poly = len(c["terms"]) % 2 == 0
-        bqm = dimod.make_quadratic(poly if use_poly else raw, float(s), gen.VT[vt] if use_poly else vt)
+        base, base_obs, cbase = None, None, "None"
+        if c.get("base"):
+            bd = c["base"]
+            base = build_base(bd)
+            base_obs = gen.observe(base)
+            snapshot = base.copy()
+            kw = {"bqm": base}
+            if bd["pass_vartype"]:
+                kw["vartype"] = gen.VT[vt] if use_poly else vt
+            bqm = dimod.make_quadratic(poly if use_poly else raw, float(s), **kw)
+            if bd["pass_vartype"]:
+                if bqm is base or not base.is_equal(snapshot) or list(base.variables) != list(snapshot.variables):
+                    py_fail = "make_quadratic(vartype=..., bqm=...) modified the model it was given"
+            elif bqm is not base:
+                py_fail = "make_quadratic(bqm=...) without vartype did not add to the model it was given"
+        else:
+            bqm = dimod.make_quadratic(poly if use_poly else raw, float(s), gen.VT[vt] if use_poly else vt)
         if bqm.vartype is not gen.VT[vt]:
             py_fail = f"vartype of the result is {bqm.vartype}"
         red = bqm.info['reduction']
@@ -218,14 +256,19 @@ def run_case(c):
             feats = {"aux_product_collision": True}      # one label serves as a product and as an auxiliary variable
         for x in poly.variables:
             T.idx(x)
+        if base_obs is not None:
+            cbase = f"(Some ({c['base']['vartype']}, {coq_obs(base_obs, T)}))"
         ccons = clist([f"({cnat(T.idx(u))}, {cnat(T.idx(v))}, {cnat(T.idx(p))}, {cnat(T.idx(w) if w is not None else 0)})"
                        for u, v, p, w in cons])
         o = gen.observe(bqm)
         cobs = coq_obs(o, T)
         expect_vars = set(poly.variables) | {p for _, _, p, _ in cons} | {w for _, _, _, w in cons if w is not None}
+        if base_obs is not None:
+            expect_vars |= {dec_label(x) for x in base_obs["vars"]}
+            feats["base"] = ("same" if c["base"]["vartype"] == vt else "other") + ("+vt" if c["base"]["pass_vartype"] else "")
         if set(bqm.variables) != expect_vars:
             py_fail = f"variables of the BQM {set(bqm.variables)!r} differ from original+product+auxiliary {expect_vars!r}"
-        coq = f"(CMq {vt} {hp(T, raw_items)} {hp(T, items)} {cq(s)} {ccons} {cnat(len(T))} {cobs})"
+        coq = f"(CMq {vt} {hp(T, raw_items)} {hp(T, items)} {cq(s)} {ccons} {cnat(len(T))} {cbase} {cobs})"
         feats["ncons"] = len(cons)
         return {"coq": coq, "py_fail": py_fail, "features": feats, "nontrivial": len(cons) > 0,
                 "observed": {"bqm": o, "reduction": repr(red)}}
@@ -233,9 +276,21 @@ def run_case(c):
         poly = dimod.BinaryPolynomial(raw, vt)
         items = [(list(k), b) for k, b in poly.items()]
         use_poly = len(c["terms"]) % 2 == 0
-        cqm = dimod.make_quadratic_cqm(poly if use_poly else raw, None if use_poly else vt)
+        base_obs, cbase = None, "None"
+        if c.get("base"):
+            base_cqm = dimod.ConstrainedQuadraticModel()
+            base_cqm.set_objective(build_base(c["base"]))
+            base_obs = gen.observe(base_cqm.objective)
+            cqm = dimod.make_quadratic_cqm(poly if use_poly else raw, None if use_poly else vt, cqm=base_cqm)
+            if len(base_cqm.variables) and cqm is not base_cqm:
+                py_fail = "make_quadratic_cqm(cqm=...) did not add to the model it was given"
+            feats["base"] = "cqm"
+        else:
+            cqm = dimod.make_quadratic_cqm(poly if use_poly else raw, None if use_poly else vt)
         for x in poly.variables:
             T.idx(x)
+        if base_obs is not None:
+            cbase = f"(Some {coq_obs(base_obs, T)})"
         cons, cobs = [], []
         for lab, con in cqm.constraints.items():
             lhs = con.lhs
@@ -257,7 +312,7 @@ def run_case(c):
         oo = gen.observe(cqm.objective)
         ccons = clist([f"({cnat(T.idx(u))}, {cnat(T.idx(v))}, {cnat(T.idx(p))})" for u, v, p in cons])
         cobj = coq_obs(oo, T)
-        coq = f"(CCqm {vt} {hp(T, raw_items)} {hp(T, items)} {ccons} {cnat(len(T))} {cobj} {clist(cobs)})"
+        coq = f"(CCqm {vt} {hp(T, raw_items)} {hp(T, items)} {ccons} {cnat(len(T))} {cbase} {cobj} {clist(cobs)})"
         feats["ncons"] = len(cons)
         return {"coq": coq, "py_fail": py_fail, "features": feats, "nontrivial": len(cons) > 0,
                 "observed": {"objective": oo, "constraints": [repr(x) for x in cqm.constraints.values()]}}
